@@ -141,6 +141,26 @@ impl<S: Read + Write> RdpClient<S> {
     }
 }
 
+/// Verification hook (only with `--cfg rdp_rs_verif`): assemble a client
+/// from already connected layers
+#[cfg(rdp_rs_verif)]
+impl<S: Read + Write> RdpClient<S> {
+    pub fn verif_from_parts(mcs: mcs::Client<S>, global: global::Client) -> Self {
+        RdpClient {
+            mcs,
+            global
+        }
+    }
+
+    pub fn verif_global(&self) -> &global::Client {
+        &self.global
+    }
+
+    pub fn verif_parts_mut(&mut self) -> (&mut mcs::Client<S>, &mut global::Client) {
+        (&mut self.mcs, &mut self.global)
+    }
+}
+
 pub struct Connector {
     /// Screen width
     width: u16,
